@@ -385,6 +385,18 @@ def monitor(case, res):
             return key, f"accepted but x0[{i}] = {x!r} is not strictly inside the finite hard bounds [{l!r}, {u!r}]"
         if res["drawn"] and not (p <= x <= q):
             return "drawn-x0-outside-plausible", f"x0[{i}] = {x} drawn outside [{p}, {q}]"
+    # the problem BADS will actually optimise (internal coordinates) must be a well-formed image of the normalised one:
+    # no NaN anywhere, a bound infinite exactly where the user's is, lb <= plb < pub <= ub, start inside (that plb, pub map to -1, +1 is C11's clause)
+    tr = res.get("tr")
+    if tr:
+        for i in range(D):
+            tl, tu, tp, tq, uu = tr["lb"][i], tr["ub"][i], tr["plb"][i], tr["pub"][i], tr["u"][i]
+            if any(math.isnan(v) for v in (tl, tu, tp, tq, uu)):
+                return "internal-normal-form", f"accepted but the internal problem has NaN in coordinate {i}: lb {tl} plb {tp} pub {tq} ub {tu} start {uu}"
+            if math.isinf(tl) != math.isinf(res["lb"][i]) or math.isinf(tu) != math.isinf(res["ub"][i]):
+                return "internal-normal-form", f"accepted but internal bounds of coordinate {i} are infinite where the user's are not (or vice versa): {tl} {tu}"
+            if not (tl <= tp < tq <= tu and tl <= uu <= tu):
+                return "internal-normal-form", f"accepted but the internal problem is not lb <= plb < pub <= ub with the start inside in coordinate {i}: {tl} {tp} {tq} {tu} start {uu}"
     return None
 
 
